@@ -200,9 +200,14 @@ fn on_pending(w: &mut World, o: &ExecOpts, started: u64) -> Pend {
         return Pend::Cancel;
     }
     let now = clock::now();
+    if w.force_cancel.is_some() {
+        w.kind(47);
+        w.log(|| "fault enumeration: the operation is cancelled at this I/O call".to_string());
+        return Pend::Cancel;
+    }
     match blocked {
         Blocked::WriteStall | Blocked::FlushStall | Blocked::ReadStall => {
-            if o.cancellable && !w.benign && w.tape.chance(w.cfg.p_cancel, 1000) {
+            if o.cancellable && !w.benign && { let p = w.cfg.p_cancel; w.s_chance(p, 1000) } {
                 let c = &w.conns[cur];
                 if c.parsed != c.wire.len() {
                     w.probe("cancel_after_partial_write");
@@ -243,7 +248,7 @@ fn on_pending(w: &mut World, o: &ExecOpts, started: u64) -> Pend {
                 return Pend::Cancel;
             }
             let next_ev = w.next_event_time();
-            if o.cancellable && !w.benign && w.tape.chance(w.cfg.p_cancel, 1000) {
+            if o.cancellable && !w.benign && { let p = w.cfg.p_cancel; w.s_chance(p, 1000) } {
                 w.fault("cancel_at_read_or_timer");
                 w.kind(41);
                 w.log(|| "app cancels the operation while it waits".to_string());
@@ -254,11 +259,13 @@ fn on_pending(w: &mut World, o: &ExecOpts, started: u64) -> Pend {
                 (a, b) => a.or(b),
             };
             let Some(mut t) = target else {
+                w.last_cancel_idle = true;
                 w.kind(42);
                 w.log(|| "nothing can wake the operation: app gives up waiting".to_string());
                 return Pend::Cancel;
             };
             if o.timer_is_idle && next_ev.is_none() {
+                w.last_cancel_idle = true;
                 w.kind(42);
                 return Pend::Cancel;
             }
@@ -293,7 +300,10 @@ pub fn exec<F: Future>(fut: F, o: ExecOpts) -> Option<F::Output> {
     let mut polls = 0u64;
     let mut polls_same_t = 0u64;
     let mut last_t = clock::now();
-    with(|w| w.spin_count = 0);
+    with(|w| {
+        w.spin_count = 0;
+        w.last_cancel_idle = false;
+    });
     loop {
         clock::clear_wake();
         with(|w| w.io_calls_this_poll = 0);
@@ -553,6 +563,10 @@ fn label(w: &mut World, l: &'static str) {
 }
 
 fn std_opts(w: &mut World, cancellable: bool) -> ExecOpts {
+    if w.twin_mode {
+        // twin scenarios: no program-tape draws during execution
+        return ExecOpts { cancellable, idle_cancel: true, budget_us: None, timer_is_idle: false };
+    }
     let budget = if w.benign {
         None
     } else {
@@ -564,6 +578,9 @@ fn std_opts(w: &mut World, cancellable: bool) -> ExecOpts {
 /// Check an operation result against what the simulated world knows must have happened.
 fn check_result(w: &mut World, op: &'static str, res: &Res, was_live: bool, io_err_before: bool) {
     w.log(|| format!("app: {} -> {}", op, res.name()));
+    if w.twin_mode {
+        w.results.push(format!("{}:{}", op, res.name()));
+    }
     let cur = w.cur;
     let expect = w.expect.take();
     let io_err_now = w.conns[cur].io_error.is_some() && !io_err_before;
@@ -621,6 +638,7 @@ fn check_result(w: &mut World, op: &'static str, res: &Res, was_live: bool, io_e
                 );
             }
         }
+        None if w.raw_mode => {}
         None => match res {
             Res::Rejected(code) => w.violate(
                 "C18",
@@ -846,7 +864,11 @@ pub fn do_publish(conn: &mut Conn<'_, '_>, spec: &PubSpec) -> Res {
     let ri = with(|w| register_req(w, spec.tag, ReqKind::Pub, eff_qos, expected, false));
     let quiescent_before = conn.session().is_publish_quiescent();
     let mprops: Vec<Property<'_>> = spec.props.iter().map(to_minimq).collect();
-    let opts = with(|w| std_opts(w, true));
+    // twin runs never cancel a QoS 0 publish (documented as not cancel-safe)
+    let opts = with(|w| {
+        let c = !(w.twin_mode && eff_qos == 0);
+        std_opts(w, c)
+    });
     let mut handle = None;
     let res = {
         let fails = spec.payload_fails;
@@ -1044,6 +1066,9 @@ pub enum Wait {
 fn check_delivery(w: &mut World, d: &Delivered) {
     let cur = w.cur;
     w.delivered.push(d.clone());
+    if w.raw_mode {
+        return;
+    }
     let Some(bi) = w.conns[cur].expect_deliver.pop_front() else {
         w.violate(
             "C04",
@@ -1360,7 +1385,9 @@ pub fn do_connect<'a, 'b>(session: &'a mut Session<'b>, cancellable: bool) -> Co
                 check_result(w, "connect", &Res::Ok, true, false);
                 let cur = w.cur;
                 let c = &w.conns[cur];
-                if !c.established {
+                if w.raw_mode {
+                    // raw byte scenarios judge the handshake themselves
+                } else if !c.established {
                     w.violate(
                         "C05",
                         "connected-without-connack".into(),
